@@ -139,8 +139,12 @@ Definition strip_nul (p : list N) : list N :=
   | _ => p
   end.
 
+(** A length below [sizeof(sa_family_t)] (recvmsg reports 0 when the sender is not bound: the
+    kernel writes nothing, not even the family) is the unnamed address since the repair of H29;
+    before it the code computed [length - 2] on it ([None]: assertion failure in a debug build,
+    wrap-around and an out-of-bounds slice in a release build). *)
 Definition init_un (v : variant) (b : list N) (len : N) : option addr :=
-  if len <? SUN_PATH_OFFSET then None
+  if len <? SUN_PATH_OFFSET then (match v with Fixed => Some UnUnnamed | AsIs => None end)
   else if SIZEOF_UN <? len then None
   else if negb (le_u16 b =? AF_UNIX) then None
   else
@@ -169,6 +173,11 @@ Definition kernel_len (a : addr) : N :=
   | UnAbstract n => 2 + 1 + N.of_nat (length n)
   | NoAddr => 0
   end.
+
+(** What recvmsg reports as [msg_namelen] for the SENDER of a datagram: as above, except that a
+    Unix sender that is not bound has length 0 (unix_copy_addr: nothing is copied). *)
+Definition kernel_len_recv (a : addr) : N :=
+  match a with UnUnnamed => 0 | _ => kernel_len a end.
 
 (** * The two directions as the kernel sees them.
     [sent]: the bytes covered by the pointer/length pair of [as_ptr].
@@ -214,6 +223,7 @@ Definition run_sacase_v (v : variant) (c : sacase) : list Z :=
       ++ enc_bytes (sent v i a)
       ++ enc_addr (read_back v i a (kernel_len a) fill)
       ++ (match a with UnPath _ => enc_addr (read_back v i a (kernel_len a - 1) fill) | _ => [] end)
+      ++ (match a with UnUnnamed => enc_addr (read_back v i a (kernel_len_recv a) fill) | _ => [] end)
       ++ flat_map (fun l => enc_addr (read_back v i a l fill)) extra
   | CaseRaw i bytes len => enc_addr (init v i bytes len)
   end.
